@@ -46,8 +46,10 @@ TOK = st.one_of(
 def strategy_(draw, tier):
     tw = gen.draw_layout(draw, layouts=["flat", "homevol", "onevol", "nested"])
     tds = gen.draw_tdirs(draw, tw)
-    base_dir = draw(st.sampled_from([tw.home + "/a/foo", "/data/foo"] +
-                                    [v + "/a/foo" for v in tw.vols]))
+    base_dir = draw(st.sampled_from([tw.home + "/a/foo", "/data/foo", tw.home + "/a/foo"] +
+                                    [v + "/a/foo" for v in tw.vols] +
+                                    # names that Unicode normalisation would change
+                                    [tw.home + "/a/cafe\u0301", "/data/\u212bngstrom", "/data/e\u0301\u0301 x"]))
     nm = draw(gen.names(long_ok=False))
     locs = [base_dir, base_dir + "/" + nm, base_dir + "/sub/y", base_dir + "/sub/" + nm,
             base_dir + "bar", base_dir + "bar/z", base_dir + " /z", base_dir + "/../foo2/x",
@@ -139,7 +141,7 @@ def run_case(case):
     elif req == "parent_cwd":
         cwd, scope = D.rsplit("/", 1)[0], D.rsplit("/", 1)[0]
     elif req == "rel_arg":
-        cwd, arg = D.rsplit("/", 1)[0], ["foo"]
+        cwd, arg = D.rsplit("/", 1)[0], [D.rsplit("/", 1)[1]]
     spec = tw.spec(cwd=cwd)
     sandbox.build_world(spec)
     before = sandbox.snapshot()
@@ -215,8 +217,16 @@ def run_case(case):
             collide = any(a != b and (a == b or a.startswith(b + "/") or b.startswith(a + "/"))
                           for a in sel_origs for b in sel_origs) or \
                 len(sel_origs) != len(set(sel_origs)) or not isinstance(idx, list)
-            truly_lost = [k for k in lost if not any(
-                subtree(after, p) == subtree(before, listed[k][1]["payload"]) for p in after)]
+            def holds(p, want):
+                # the entry is at p, possibly with other restored entries nested inside it
+                got = subtree(after, p, dir_mtime=False)
+                return all(kk in got and got[kk] == vv for kk, vv in want.items())
+            truly_lost = []
+            for k in lost:
+                want = subtree(before, listed[k][1]["payload"], dir_mtime=False)
+                if not (holds(listed[k][1]["orig"], want) or holds(listed[k][1]["payload"], want)
+                        or any(subtree(after, p) == subtree(before, listed[k][1]["payload"]) for p in after)):
+                    truly_lost.append(k)
             if truly_lost:
                 out.fail("entry_lost", "reply %r: entries %s are neither in the trash nor restored" % (
                     reply, truly_lost), reply=rcls, **tags)
